@@ -138,7 +138,7 @@ fn retire_step<const N: usize>(off: u64, exact_kind: bool) {
         }
     }
     kani::cover!(seq >= largest, "never issued");
-    kani::cover!(seq < off, "retired long ago");
+    kani::cover!(off == 0 || seq < off, "retired long ago");
     kani::cover!(r.is_ok() && s.generated.get() == 1, "active id retired");
     core::mem::forget(r);
     core::mem::forget(t);
